@@ -11,7 +11,9 @@ base = tempfile.mkdtemp(prefix="seedmx-", dir="/tmp")
 
 
 def one(seed):
-    name = os.path.basename(os.path.dirname(seed.rstrip("/"))).replace("wt-", "").replace("-out", "") + "-" + os.path.basename(seed.rstrip("/")) if "wt-" in seed else os.path.basename(seed.rstrip("/"))
+    import re
+    mm = re.search(r"(C\d\d)-out$", os.path.dirname(seed.rstrip("/")))
+    name = (mm.group(1) + "-" + os.path.basename(seed.rstrip("/"))) if mm else os.path.basename(seed.rstrip("/"))
     copy = os.path.join(base, name)
     subprocess.run(["rsync", "-a", "--exclude", ".git", "--exclude", "*.o", "--exclude", "*.lo", "--exclude", ".libs", "--exclude", "tests", "--exclude", "doc", "/repo/", copy + "/"], check=True)
     r = subprocess.run(["patch", "-p1", "-s", "-d", copy, "-i", os.path.join(seed, "patch.diff")], capture_output=True, text=True)
